@@ -78,6 +78,8 @@ impl<F: Float, D: Distance<F>> NearestNeighbourIndex<F> for KdTreeIndex<'_, F, D
                 &|a, b| self.1.rdistance(aview1(a), aview1(b)),
             )?
             .into_iter()
+            // `kdtree::KdTree::within` uses a closed ball; linear scan and ball tree use an open one
+            .filter(|(dist, _)| *dist < range)
             .map(|(_, (pt, pos))| (pt.reborrow(), *pos))
             .collect())
     }
